@@ -31,7 +31,9 @@ LEVEL_TEXT = (
     "designators, numeric offsets with and without '(NAME)', GMT+h, unknown "
     "names, ignoretz) and filler sentences (plain/fuzzy/fuzzy_with_tokens) "
     "are parsed and compared with an executable model of the documented "
-    "behaviour. Option semantics are input sampling inside a vetted domain "
+    "behaviour. A threads class runs the fill-in and fuzzy oracles while two "
+    "or three threads share the module default parser under a seeded "
+    "scheduler. Option semantics are input sampling inside a vetted domain "
     "and are reported as such.")
 LEVEL_NOTE = (
     "Trusted: the harness' default-fill model (replace exactly the rendered "
@@ -40,7 +42,8 @@ LEVEL_NOTE = (
     "local abbreviations and on the offsets of tzlocal() (real TZ+tzset); "
     "zone texts of the form <non-UTC name>+-h are generated but not judged.")
 TECHNIQUE = ("deterministic simulation of clock / process-TZ configuration "
-             "histories; executable model of default fill-in, zone "
+             "histories (and seeded thread schedules on the shared default "
+             "parser); executable model of default fill-in, zone "
              "resolution order and fuzzy relations as per-operation oracle")
 RULE = ("one evaluation = one generated history of TZ/clock events and "
         "parses (partial texts, zone texts, fuzzy sentences); non-trivial = "
@@ -55,11 +58,15 @@ EXPECTED_PROBES = ["fill.day_clipped", "fill.weekday_moved",
                    "tz.unknown_warned", "tz.ignoretz", "fuzzy.sentence",
                    "fuzzy.tokens", "fuzzy.plain_same"]
 
-REAL = ['dateutil.parser, dateutil.tz (tzlocal, tzstr, tzoffset, UTC), relativedelta from /repo/src', 'glibc tzset/localtime/mktime under the real TZ variable (authority on local abbreviations and offsets)']
-STUB = ['wall clock (SimClock: default=None reads it)', 'the sequence of process-TZ settings (generated)']
+REAL = ['dateutil.parser, dateutil.tz (tzlocal, tzstr, tzoffset, UTC), relativedelta from /repo/src', 'real OS threads in the threads class', 'glibc tzset/localtime/mktime under the real TZ variable (authority on local abbreviations and offsets)']
+STUB = ['wall clock (SimClock: default=None reads it)', 'the sequence of process-TZ settings (generated)', 'thread scheduling in the threads class']
 
 CLASSES = {
     "config": dict(quick=20000, thorough=500000, timeout=60),
+    # the same per-operation oracles while two or three threads share the
+    # module default parser (fill-in and fuzzy relations; zone texts need the
+    # process-wide warnings machinery and stay single-threaded)
+    "threads": dict(quick=1500, thorough=30000, timeout=60),
 }
 
 # (TZ value, local abbreviations, an ambiguous wall time [y,m,d,H,M] or None)
@@ -163,6 +170,24 @@ def gen_fuzzy(rng):
 
 def generate(cls, rng):
     init = dict(clock=rng.choice(CLOCKS), tz=rng.randrange(len(TZ_SETTINGS)))
+    if cls == "threads":
+        threads = [[gen_fuzzy(rng) if rng.random() < 0.6 else gen_fill(rng)
+                    for _ in range(rng.randrange(1, 4))]
+                   for _ in range(rng.choice([2, 2, 3]))]
+        for prog in threads:
+            for op in prog:
+                if op[0] == "fuzzy" and not (op[3] or op[4]):
+                    op[3] = rng.choice(FILLER_PRE)
+        strat = rng.choice([
+            dict(kind="random", p=rng.choice([0.02, 0.1, 1.0])),
+            dict(kind="pb", k=rng.choice([1, 2, 3]),
+                 horizon=rng.choice([300, 1500, 5000])),
+            dict(kind="pct", d=rng.choice([2, 3]),
+                 horizon=rng.choice([300, 1500, 5000])),
+            dict(kind="crit", k=rng.choice([1, 2, 3]),
+                 q=rng.choice([0.05, 0.15, 0.4]), p=rng.choice([0.0, 0.02]))])
+        return dict(init=init, threads=threads,
+                    sched=dict(strategy=strat, seed=rng.getrandbits(32)))
     ops = []
     for _ in range(rng.randrange(6, 40)):
         r = rng.random()
@@ -215,6 +240,7 @@ class Env(object):
             init["clock"])
         P.DEFAULTPARSER = P.parser()
         self.config_events = 0
+        self.threaded = False
 
     def set_tz(self, i):
         v, names, amb = TZ_SETTINGS[i]
@@ -228,6 +254,9 @@ class Env(object):
         self.local_names = [n for n in time.tzname]
 
     def parse(self, text, **kw):
+        if self.threaded:
+            # warnings.catch_warnings is process-global state
+            return self.parser.parse(text, **kw), []
         with warnings.catch_warnings(record=True) as wl:
             warnings.simplefilter("always")
             r = self.parser.parse(text, **kw)
@@ -313,7 +342,34 @@ def fill_model(default, f, fields):
     return out, clipped, moved
 
 
+def execute_threads(scenario, ctx):
+    from dsim.kernel import Scheduler
+    warnings.simplefilter("ignore")
+    env = Env(ctx, scenario["init"])
+    env.threaded = True
+    st = scenario["sched"]
+    sched = Scheduler(st["strategy"], st.get("seed", 0), tape=st.get("tape"),
+                      max_steps=4000000)
+    for ti, prog in enumerate(scenario["threads"]):
+        def body(prog=prog):
+            for op in prog:
+                if op[0] == "fill":
+                    do_fill(env, ctx, op)
+                elif op[0] == "fuzzy":
+                    do_fuzzy(env, ctx, op)
+        sched.spawn(body, "T%d" % ti)
+    try:
+        sched.run()
+    finally:
+        ctx.sched_summary = sched.summary()
+    ctx.fault("preemption", sched.preemptions)
+    if sched.switches:
+        ctx.nontrivial = True
+
+
 def execute(cls, scenario, ctx):
+    if cls == "threads":
+        return execute_threads(scenario, ctx)
     env = Env(ctx, scenario["init"])
     kinds = set()
     judged = 0
